@@ -17,7 +17,8 @@ def oa16():
 
 
 C05_KINDS = ("reparse-error", "different-program", "panic")
-C18_KINDS = ("not-idempotent", "tree-modified", "nondeterministic", "write-error-ignored", "print-error", "spurious-write-error", "panic")
+# (a printed text that cannot be read back is not a fix-point of formatting either)
+C18_KINDS = ("reparse-error", "not-idempotent", "tree-modified", "nondeterministic", "write-error-ignored", "print-error", "spurious-write-error", "panic")
 
 
 def kinds_of(out):
@@ -44,6 +45,14 @@ class Base:
         n = 1200 if tier == "quick" else 12000
         hd = G.heredoc_corpus()
         progs = CORPUS + G.arith_corpus() + hd + [g.program(rnd.choice([1, 2, 2, 3])) for _ in range(n)]
+        # renderings of grammar derivations (reserved words as command names after a prefix, esac as a pattern, separators left
+        # out after compound commands, redirections in every place)
+        from props import dgen as D
+        drnd = random.Random(seed * 7919 + 5)
+        dg = D.DGen(drnd)
+        progs += [D.render(dg.program(drnd.choice([1, 2, 2, 3])), drnd, rich=drnd.random() < 0.5)[0] for _ in range(n // 2)]
+        progs += [">f if a\n", "<f for\n", "a | >f do\n", ">f { a\n", "2>&1 then\n", ">f ! a\n", "x=1 >f if\n", ">f in\n", ">f }\n", ">f esac b\n", "2>f fi >g\n",
+                  "case x in (esac) a;; esac\n", "case x in (esac|b) a;;\n(c) d\nesac\n", "case x in (a|esac) a;; esac\n", "case esac in (esac) esac;; esac\n"]
         pair = ",".join(str(i) for i in oa16())
         cases = []
         for k, p in enumerate(progs):
